@@ -2509,6 +2509,7 @@ where
         // Step 2: Sort by size descending for better packing.
         fv_sizes.sort_unstable_by_key(|b| std::cmp::Reverse(b.1));
 
+        anda_db_utils::verif_point!("btree.compact.snapshot_done");
         // Step 3: First-fit-decreasing bin packing.
         let limit = self.config.bucket_overload_size;
         // Each bin: (accumulated_size, field_values)
@@ -2524,6 +2525,7 @@ where
         }
 
         // Step 4: Rebuild buckets.
+        anda_db_utils::verif_point!("btree.compact.before_rebuild");
         self.buckets.clear();
         let new_count = bins.len();
         let max_id = new_count.saturating_sub(1) as u32;
